@@ -611,7 +611,7 @@ def gen_C11(g, tier):
             # the std adaptors (nth / skip / step_by / last / count / take) over the crate's iterators
             sl = offset_slice(g, c, t, r.randrange(0, 64 // w + 1))
             for kind in ("windows", "chunks", "iter", "reviter"):
-                for ad in ("nth", "skip", "stepby", "last", "count", "take", "nthnext", "hint", "lastafter", "countafter", "foldafter", "nthhuge", "nthcount", "nthlast", "nthhint"):
+                for ad in ("nth", "skip", "stepby", "last", "count", "take", "nthnext", "hint", "lastafter", "countafter", "foldafter", "nthhuge", "nthcount", "nthlast", "nthhint", "rev", "len"):
                     wd = r.randrange(1, max(2, min(n, 5) + 1))
                     arg = r.choice([0, 1, 2, 3, n // 2, n])
                     if ad.startswith("nth") and ad != "nth":
@@ -753,7 +753,7 @@ def gen_C02(g, tier):
                 lines.append(f"{c} kmer hasheq {K} {st} {v} {sl}")
                 lines.append(f"{c} kmer try {K} {st} {sl}")
                 for (label, t2) in variants_of(g, c, t):
-                    for pr in ("slice", "refslice"):
+                    for pr in ("slice", "refslice", "rslice", "rrefslice", "rseq"):
                         lines.append(f"{c} kmer eq {K} {st} {pr} {v} {offset_slice(g, c, t2, r.randrange(0, per + 1))}")
                     if len(t2) == K:
                         lines.append(f"{c} kmer eqk {K} {st} {v} {g.value(c, t2)}")
@@ -899,6 +899,7 @@ def gen_C08(g, tier):
                     lines.append(f"{c} adapt kmers {K} {r.choice(['nth', 'skip', 'stepby', 'last', 'count', 'nthnext'])} {r.choice([0, 1, 2, 3])} {sl}")
                     lines.append(f"{c} adapt kmers {K} hint {r.choice([0, 0, 1, 2])} {sl}")
                     lines.append(f"{c} adapt kmers {K} {r.choice(['lastafter', 'countafter', 'foldafter', 'nthhuge'])} {r.choice([0, 1, 2, n])} {sl}")
+                    lines.append(f"{c} adapt kmers {K} {r.choice(['rev', 'len'])} {r.choice([0, 0, 1, 2])} {sl}")
                     lines.append(f"{c} kmer try {K} usize {sl}")
                     lines.append(f"{c} show kd {K} {sl}")
                     lines.append(f"{c} show ofkmer {K} {sl}")
@@ -1226,7 +1227,7 @@ def gen_C13(g, tier):
         sl = offset_slice(g, 'dna', g.text('dna', n), r.randrange(0, 33))
         lines.append(f"dna translate {sl}")
         # the triplet iterators driven through the std adaptors (nth / skip / step_by)
-        for ad in ("nth", "skip", "stepby", "nthnext", "foldafter", "lastafter", "countafter"):
+        for ad in ("nth", "skip", "stepby", "nthnext", "foldafter", "lastafter", "countafter", "rev", "len", "last"):
             lines.append(f"dna adapt windows 3 {ad} {r.choice([0, 1, 2, 3, 5, n // 3])} {sl}")
             lines.append(f"dna adapt chunks 3 {ad} {r.choice([0, 1, 2, 3, 5, n // 3])} {sl}")
     return lines
@@ -1475,6 +1476,14 @@ def gen_C16(g, tier):
     for n in range(1, 33):
         t = [r.choice([65, 67, 71, 84]) for _ in range(n)]
         lines.append(f"dna kmer fromstr {n} usize {hx(t)}")
+    # a k-mer (literal or parsed) equals the sequence of the same text whichever side of `==` it stands on, also when the
+    # k-mer fills its storage type exactly
+    for (c, st, Ks) in (("dna", "usize", (1, 16, 31, 32)), ("dna", "u64", (32,)), ("dna", "u128", (33, 63, 64)), ("iupac", "usize", (15, 16)), ("iupac", "u128", (17, 32))):
+        for K in Ks:
+            t = g.text(c, K)
+            for pr in ("slice", "refslice", "rslice", "rrefslice", "rseq"):
+                lines.append(f"{c} kmer eq {K} {st} {pr} {g.value(c, t)} p str {hx(t)}")
+                lines.append(f"{c} kmer eq {K} {st} {pr} {g.value(c, t)} {offset_slice(g, c, t[:-1] + g.text(c, 1), 3)}")
     return lines
 
 
